@@ -82,7 +82,10 @@ def bptk_path(hist, rng, R):
                 "properties": {}, "agents": [{"name": c[0], "count": c[1], "properties": A.prop_v(c[2])} for c in cfg["cfg"]]}
         import copy as _copy
         # two scenarios with the same population and script: one run_scenarios call runs both, each must report its own run
-        b.register_scenario_manager({"smAbm": {"type": "abm", "model": m, "scenarios": {"sc": scen, "sc2": _copy.deepcopy(scen)}}})
+        # ... and a third one with no agents at all: it reports nothing, whatever its siblings collected, and the registered model
+        # object (never run) collects nothing either
+        empty = dict(_copy.deepcopy(scen), agents=[])
+        b.register_scenario_manager({"smAbm": {"type": "abm", "model": m, "scenarios": {"sc": scen, "sc2": _copy.deepcopy(scen), "sc0": empty}}})
         tab = expected_table(run)
         populated = {(ty, st) for (ty, st, k), col in tab.items() if k == "count" and any(v > 0 for v in col.values())}
         bad = []
@@ -133,6 +136,22 @@ def bptk_path(hist, rng, R):
                         bad.append(("run_scenarios(%s) count %s/%s" % (fmt, ty, st), "present", "%s: %s" % (type(e).__name__, e)))
                         continue
                     bad += _cmp_cells(tab[(ty, st, "count")], got, "run_scenarios(%s) count %s_%s" % (fmt, ty, st))
+        try:
+            import contextlib, io
+            with contextlib.redirect_stdout(io.StringIO()):        # ("No output data produced" is what this run is expected to say)
+                b.run_scenarios(scenario_managers=["smAbm"], scenarios=["sc0"], agents=sel_agents, agent_states=sel_states, return_format="dict")
+            seen = {}
+            for t, per_type in b.get_scenario("smAbm", "sc0").data_collector.agent_statistics.items():
+                for ty, per_state in per_type.items():
+                    for st, cell in per_state.items():
+                        if (cell.get("count", 0) if isinstance(cell, dict) else cell):
+                            seen[(t, ty, st)] = cell.get("count") if isinstance(cell, dict) else cell
+            if seen:
+                bad.append(("scenario sc0 has no agents but reports statistics (collected by a sibling scenario)", {}, {str(k): v for k, v in list(seen.items())[:4]}))
+        except Exception as e:
+            bad.append(("run_scenarios of the scenario without agents", "runs", "%s: %s" % (type(e).__name__, e)))
+        if m.data_collector.agent_statistics:
+            bad.append(("the registered model object was never run but its data collector holds statistics", {}, {str(k): "..." for k in list(m.data_collector.agent_statistics)[:4]}))
         return bad
     finally:
         b.destroy()
